@@ -34,6 +34,7 @@ type Env struct {
 	SFileThr  int   // SeriesPartition.CompactThreshold (0 = leave the default)
 	Store     *tsdb.Store
 	sfileSeen map[string]string // partition index file -> "size/mtime" (to count rebuilt series indexes)
+	lastNames []string          // measurements the last expanded delete was issued for (diagnosis)
 }
 
 func (e *Env) dataDir() string { return filepath.Join(e.Root, "data") }
@@ -195,6 +196,7 @@ func (e *Env) Delete(src Source, pred *Pred, bounded bool, min, max int64) error
 			return err
 		}
 		sel := src.sel()
+		e.lastNames = append([]string{"store listed:"}, names...)
 		for _, n := range names {
 			if !sel.Match(n) {
 				continue
@@ -645,6 +647,35 @@ func (e *Env) PhantomInMeasurement(shards []uint64, name string) bool {
 		}
 	}
 	return false
+}
+
+// MeasurementDetail describes what each shard's tsi1 index holds for a measurement (diagnosis only).
+func (e *Env) MeasurementDetail(shards []uint64, name string) []string {
+	var out []string
+	for _, id := range shards {
+		t := e.tsi(id)
+		if t == nil {
+			continue
+		}
+		has, _ := t.MeasurementHasSeries([]byte(name))
+		exists, _ := t.MeasurementExists([]byte(name))
+		line := fmt.Sprintf("shard %d %q: MeasurementExists=%v MeasurementHasSeries=%v ids:", id, name, exists, has)
+		sf := t.SeriesFile()
+		set := t.SeriesIDSet()
+		if itr, err := t.MeasurementSeriesIDIterator([]byte(name)); err == nil && itr != nil {
+			for {
+				el, err := itr.Next()
+				if err != nil || el.SeriesID == 0 {
+					break
+				}
+				n, tags := sf.Series(el.SeriesID)
+				line += fmt.Sprintf(" [%d in-shard-set=%v deleted-in-series-file=%v %s %s]", el.SeriesID, set.Contains(el.SeriesID), sf.IsDeleted(el.SeriesID), n, tags.String())
+			}
+			itr.Close()
+		}
+		out = append(out, line)
+	}
+	return out
 }
 
 // SeriesIDDetail lists the series ids a shard's index counts, resolved through the series file.
